@@ -25,7 +25,7 @@ from pexpect.spawnbase import SpawnBase
 
 from ..hooks.vclock import VClock
 from ..core.watchdog import CaseTimeout
-from ..models.expect_ref import (RefEngine, Hang, EOF_M, TIMEOUT_M)
+from ..models.expect_ref import (RefEngine, Hang, DeadlineTie, EOF_M, TIMEOUT_M)
 
 DEFAULT_TIMEOUT = 30
 
@@ -75,6 +75,8 @@ class Cursor(object):
                     continue
                 return ('t', None, max(remaining, 0.0))
             dt = e[2] if e[0] == 'd' else e[1]
+            if remaining is not None and dt > 0 and abs(dt - remaining) < 1e-9:
+                raise DeadlineTie()
             if remaining is not None and dt > remaining:
                 if e[0] == 'd':
                     e[2] = dt - max(remaining, 0.0)
@@ -410,6 +412,9 @@ class Step(object):
                  'specs')
 
 
+TIES = [0]         # histories cut short because an arrival fell on a deadline (see DeadlineTie)
+
+
 def steps(case):
     """Generator of Step objects; stops after the first op whose real or model
     outcome leaves the two in different states (the oracles have seen it)."""
@@ -418,8 +423,15 @@ def steps(case):
         for i, op in enumerate(case['ops']):
             st = Step()
             st.i, st.op = i, op
-            st.ret, st.exc, st.calls = run.real_op(op)
-            st.outs, st.rv, st.raised = run.ref_op(op, st.calls)
+            try:
+                st.ret, st.exc, st.calls = run.real_op(op)
+                st.outs, st.rv, st.raised = run.ref_op(op, st.calls)
+            except DeadlineTie:
+                TIES[0] += 1
+                return
+            if isinstance(st.exc, DeadlineTie):
+                TIES[0] += 1
+                return
             st.specs = list(run.ref_specs)
             yield run, st
             if st.exc is not None and not isinstance(st.exc, (EOF, TIMEOUT)):
